@@ -21,7 +21,7 @@ AUTHF = "util::auth::authenticate_client"
 
 def r1_construct_after_auth(ctx):
     n = 0
-    for key, body in ctx.P.bodies.items():
+    for key, body in ctx.P.scan():
         cs = calls_norm(body, "Session::new_server")
         if not cs:
             continue
